@@ -180,7 +180,7 @@ def random_case(rng, tier):
         # the controlled process is one recreated from a checkpoint with the communicator in its load context (what a
         # launcher's continue task does), saved right after construction or at its first rest
         from simkit import persist
-        opts['via_bundle'] = {'medium': rng.choice(persist.MEDIA), 'after': rng.choice(['created', 'rest'])}
+        opts['via_bundle'] = {'medium': rng.choice(persist.MEDIA), 'after': rng.choice(['created', 'rest', 'rest', 'terminated'])}
     case = {'program': program, 'schedule': schedule, 'opts': opts, 'flavour': flavour}
     if case_fault:
         case['fault'] = case_fault
